@@ -381,37 +381,42 @@ Inductive sorted_names : list bytes -> Prop :=
 | sorted_cons n m l : bytes_ltb n m = true -> sorted_names (m :: l) -> sorted_names (n :: m :: l).
 
 (* an observed tree as the operating system can produce it: 64-bit fields, names without NUL, listing length below
-   2^64, only directories have entries; [sorted]: entries in name order *)
-Fixpoint wf_v (v : vtree) : Prop :=
-  match v with
-  | VMissing => True
-  | VNode i cs =>
-    wf_fi i /\ (isdir i = false -> cs = []) /\
-    forallb nul_free (names cs) = true /\ u64 (N.of_nat (length (sl_flat (names cs)))) /\
-    (fix all (l : list (bytes * vtree)) : Prop := match l with [] => True | nc :: l' => wf_v (snd nc) /\ all l' end) cs
-  end.
+   2^64, only directories have entries *)
+Inductive wf_v : vtree -> Prop :=
+| wf_VMissing : wf_v VMissing
+| wf_VNode i cs :
+    wf_fi i -> (isdir i = false -> cs = []) ->
+    forallb nul_free (names cs) = true -> u64 (N.of_nat (length (sl_flat (names cs)))) ->
+    Forall (fun nc => wf_v (snd nc)) cs ->
+    wf_v (VNode i cs).
 
-Fixpoint sorted_v (v : vtree) : Prop :=
-  match v with
-  | VMissing => True
-  | VNode i cs =>
-    sorted_names (names cs) /\
-    (fix all (l : list (bytes * vtree)) : Prop := match l with [] => True | nc :: l' => sorted_v (snd nc) /\ all l' end) cs
-  end.
+(* the same for a database state (the Node records) *)
+Inductive wf_s : stree -> Prop :=
+| wf_SMissing : wf_s SMissing
+| wf_SNode ni si cs :
+    wf_fi ni -> (isdir ni = false -> cs = []) ->
+    forallb nul_free (names cs) = true -> u64 (N.of_nat (length (sl_flat (names cs)))) ->
+    Forall (fun nc => wf_s (snd nc)) cs ->
+    wf_s (SNode ni si cs).
 
-(* equal except in the fields FileInfo::operator== skips (the mode) *)
-Fixpoint cmp_sim (a b : vtree) : Prop :=
-  match a, b with
-  | VMissing, VMissing => True
-  | VNode i cs, VNode j ds =>
-    info_eqb i j = true /\
-    (fix all (l : list (bytes * vtree)) (m : list (bytes * vtree)) : Prop :=
-       match l, m with
-       | [], [] => True
-       | (n, c) :: l', (n', d) :: m' => n = n' /\ cmp_sim c d /\ all l' m'
-       | _, _ => False
-       end) cs ds
-  | _, _ => False
+(* entries in name order at every level *)
+Inductive sorted_v : vtree -> Prop :=
+| sorted_VMissing : sorted_v VMissing
+| sorted_VNode i cs : sorted_names (names cs) -> Forall (fun nc => sorted_v (snd nc)) cs -> sorted_v (VNode i cs).
+
+(* equal except in the field FileInfo::operator== skips (the mode) *)
+Inductive cmp_sim : vtree -> vtree -> Prop :=
+| cmp_Missing : cmp_sim VMissing VMissing
+| cmp_Node i j cs ds :
+    info_eqb i j = true ->
+    Forall2 (fun a b : bytes * vtree => fst a = fst b /\ cmp_sim (snd a) (snd b)) cs ds ->
+    cmp_sim (VNode i cs) (VNode j ds).
+
+(* the recursively sorted tree: what a clean unfiltered build records *)
+Fixpoint canon (v : vtree) : vtree :=
+  match v with
+  | VMissing => VMissing
+  | VNode i cs => VNode i (sort_by (map (fun nc : bytes * vtree => (fst nc, canon (snd nc))) cs))
   end.
 
 (* a single edit at any depth; each constructor changes the observed tree *)
